@@ -2053,6 +2053,8 @@ def check_C13(ck):
         pol = "gen" if rng.random() < 0.7 else "genh"
         pre, post, reg = gen_tag_script(rng, pol=pol, dup_records=(rng.random() < 0.3 and pol == "gen"))
         calls = [l for l in post if l.startswith("call ")]
+        # every third call also follows next from inside the definition that runs (D15: the decoder restores the next cells)
+        calls = [("callnext" + l[4:]) if k % 3 == 2 else l for k, l in enumerate(calls)]
         body = pre + ["update"] + (["dump"] if pol == "gen" else []) + ["encode"] + calls + ["echo D", "decode"] + calls
         scripts.append(("e%d-%s" % (i, pol), body))
 
